@@ -51,7 +51,9 @@ CHECKS = {
             'entry to an exit/raise node through unobservable lambda nodes only; each raise must have an edge to the handler statement '
             'where execution actually resumed; structural checks: next/prev mirror, entry, reachability vs an independent dead-code '
             'model, stmt_next/stmt_prev recomputed from the node graph. Random programs (incl. loop-else, try in finally, jumps in '
-            'finally) and skeletons with all decision vectors.',
+            'finally), skeletons with all decision vectors, and an enumerated matrix of two nested try statements (handler kinds incl. '
+            'Exception/BaseException/bare, else/finally clauses, loops around/between/inside, two jumps among raise of Exception and '
+            'non-Exception classes, break, continue, return).',
             'Finally bodies executed during exceptional propagation and implicit exceptions out of calls are exempt as documented.',
             'DESIGN.md 3/C05'),
     'C06': ('exploration',
